@@ -860,6 +860,7 @@ func (fr *frame) atomicCtx() bool {
 
 func (fr *frame) doOp(op *pendingOp) {
 	s := fr.i.ps.sched
+	op.site = fr.i.ps.siteOf(fr)
 	if fr.atomicCtx() {
 		if s.tryInline(op) {
 			return
